@@ -1,10 +1,11 @@
+\* wider: four configurations (adds evaluation limit for the DE kinds, dump every generation / every 3rd)
 SPECIFICATION Spec
 CONSTANTS Kinds = {"DE", "DE2", "NM", "PW"}
   NP = 2
-  MaxGen = 2
+  MaxGen = 3
   MaxInst = 3
-  MaxCells = 10
-  Settings <- QSettings
+  MaxCells = 12
+  Settings <- TSettings
   Design = "ok"
   MaxOps = 3
 INVARIANT TypeOK
